@@ -845,6 +845,18 @@ type c14WfCall struct {
 	Callee  int
 	JobID   string
 	Inherit bool
+	Block   int // index of the job's block
+}
+
+// c14JobBase separates the virtual line numbers of job blocks before the file is assembled.
+const c14JobBase = 100000
+
+func c14RemapBool(m map[int]bool, f func(int) int) map[int]bool {
+	out := map[int]bool{}
+	for k, v := range m {
+		out[f(k)] = v
+	}
+	return out
 }
 
 type c14TypedSite struct {
@@ -1023,9 +1035,17 @@ func c14WorkflowCase(c *Case) {
 	}
 	c.Count("local_interfaces", len(p.Ifaces))
 
-	b := NewYB()
-	b.L(0, "on: push")
-	b.L(0, "jobs:")
+	// Every job is rendered into its own block whose line numbers start at a block-specific virtual
+	// base; the blocks are written in a seeded order afterwards and all recorded lines are mapped to
+	// the lines of the assembled file (job order is a dimension: a dependant job may be written
+	// before, between or after the jobs that call the reusable workflows it refers to).
+	var blocks []*YB
+	newBlock := func() *YB {
+		jb := &YB{line: (len(blocks)+1)*c14JobBase + 1, col: 1}
+		blocks = append(blocks, jb)
+		return jb
+	}
+	var b *YB
 	var want []c14Finding
 	ignoreType := map[int]bool{}
 	tolTemplate := map[int]bool{}
@@ -1040,6 +1060,8 @@ func c14WorkflowCase(c *Case) {
 		f := p.Ifaces[call.Callee]
 		call.JobID = c14Style(r, fmt.Sprintf("%s%d", r.Pick([]string{"call", "job_", "c-"}), k))
 		calls = append(calls, call)
+		b = newBlock()
+		call.Block = len(blocks) - 1
 		b.L(2, call.JobID+":")
 
 		// with:
@@ -1201,38 +1223,136 @@ func c14WorkflowCase(c *Case) {
 			}
 		}
 	}
-	// downstream job with needs.<job>.outputs.* references
-	b.L(2, "downstream:")
-	var ids []string
-	for _, call := range calls {
-		ids = append(ids, call.JobID)
+	// dependant jobs with needs.<job>.outputs.* references
+	type depRef struct {
+		line     int
+		depBlock int
+		call     *c14WfCall
+		declared bool
 	}
-	b.L(4, "needs: ["+strings.Join(ids, ", ")+"]")
-	b.L(4, "runs-on: ubuntu-latest")
-	b.L(4, "steps:")
-	b.L(6, "- run: echo start")
-	for _, call := range calls {
-		f := p.Ifaces[call.Callee]
-		for k := r.Intn(4); k > 0; k-- {
-			var name string
-			declared := len(f.Outputs) > 0 && r.Intn(5) < 3
-			if declared {
-				name = f.Outputs[r.Intn(len(f.Outputs))]
-			} else {
-				name = c14Undeclared(r, f.Outputs, func(s string) bool { _, ok := f.output(s); return ok }, map[string]bool{}, nil)
+	var depRefs []depRef
+	nDep := 1 + r.Intn(3)
+	for d := 0; d < nDep; d++ {
+		b = newBlock()
+		blk := len(blocks) - 1
+		var needed []*c14WfCall
+		for _, call := range calls {
+			if r.Intn(3) != 0 {
+				needed = append(needed, call)
 			}
-			expr, written := c14OutputRef(r, "needs", call.JobID, name)
-			sr := c14RandRef(r, expr)
-			line := c14EmitRef(b, sr)
-			lineShape[line] = sr.Shape
-			c14CoverRef(c, "workflow", sr, declared)
-			if !declared {
-				want = append(want, c14Finding{c14UndefOutput, strings.ToLower(name), line})
-			} else if written != name {
-				c.Count("workflow_output_declared_ref_other_case", 1)
+		}
+		if len(needed) == 0 {
+			needed = append(needed, calls[r.Intn(len(calls))])
+		}
+		b.Lf(2, "down%d:", d)
+		var ids []string
+		for _, call := range needed {
+			ids = append(ids, call.JobID)
+		}
+		b.L(4, "needs: ["+strings.Join(ids, ", ")+"]")
+		b.L(4, "runs-on: ubuntu-latest")
+		b.L(4, "steps:")
+		b.L(6, "- run: echo start")
+		for _, call := range needed {
+			f := p.Ifaces[call.Callee]
+			for k := r.Intn(4); k > 0; k-- {
+				var name string
+				declared := len(f.Outputs) > 0 && r.Intn(5) < 3
+				if declared {
+					name = f.Outputs[r.Intn(len(f.Outputs))]
+				} else {
+					name = c14Undeclared(r, f.Outputs, func(s string) bool { _, ok := f.output(s); return ok }, map[string]bool{}, nil)
+				}
+				expr, written := c14OutputRef(r, "needs", call.JobID, name)
+				sr := c14RandRef(r, expr)
+				line := c14EmitRef(b, sr)
+				lineShape[line] = sr.Shape
+				c14CoverRef(c, "workflow", sr, declared)
+				depRefs = append(depRefs, depRef{line, blk, call, declared})
+				if !declared {
+					want = append(want, c14Finding{c14UndefOutput, strings.ToLower(name), line})
+				} else if written != name {
+					c.Count("workflow_output_declared_ref_other_case", 1)
+				}
 			}
 		}
 	}
+
+	// assemble the file: calling jobs first / dependants first / any interleaving
+	nb := len(blocks)
+	order := make([]int, nb)
+	for i := range order {
+		order[i] = i
+	}
+	layout := []string{"callers-first", "dependants-first", "interleaved", "interleaved"}[r.Intn(4)]
+	switch layout {
+	case "dependants-first":
+		order = order[:0]
+		for i := len(calls); i < nb; i++ {
+			order = append(order, i)
+		}
+		for i := 0; i < len(calls); i++ {
+			order = append(order, i)
+		}
+	case "interleaved":
+		order = r.Perm(nb)
+	}
+	c.SetAdd("job_layouts", layout)
+	g := NewYB()
+	g.L(0, "on: push")
+	g.L(0, "jobs:")
+	off := make([]int, nb) // line offset of a block in the assembled file
+	pos := make([]int, nb) // position of a block in the file
+	for q, bi := range order {
+		off[bi] = g.Lines()
+		pos[bi] = q
+		g.W(blocks[bi].String())
+	}
+	actual := func(v int) int { return off[v/c14JobBase-1] + v%c14JobBase }
+	for i := range want {
+		want[i].Line = actual(want[i].Line)
+	}
+	for i := range typed {
+		typed[i].Line = actual(typed[i].Line)
+	}
+	ignoreType = c14RemapBool(ignoreType, actual)
+	tolTemplate = c14RemapBool(tolTemplate, actual)
+	{
+		m := map[int]*c14Iface{}
+		for k, v := range siteIface {
+			m[actual(k)] = v
+		}
+		siteIface = m
+		ms := map[int]string{}
+		for k, v := range lineShape {
+			ms[actual(k)] = v
+		}
+		lineShape = ms
+	}
+	// order class of every needs reference
+	lineOrder := map[int]string{}
+	for _, dr := range depRefs {
+		pd, pc := pos[dr.depBlock], pos[dr.call.Block]
+		cls := "after-caller"
+		if pc > pd {
+			cls = "before-caller-callee-not-yet-cached"
+			for _, other := range calls {
+				if other.Callee == dr.call.Callee && pos[other.Block] < pd {
+					cls = "before-caller-callee-cached-by-earlier-caller"
+				}
+			}
+		}
+		lineOrder[actual(dr.line)] = cls
+		c.Count("needs_refs_"+cls, 1)
+		d := "undeclared"
+		if dr.declared {
+			d = "declared"
+		}
+		for _, mode := range []string{"file", "ast"} {
+			c.SetAdd("order_cells", cls+"|"+mode+"|"+d)
+		}
+	}
+	b = g
 	caller := b.String()
 	callerRel := ".github/workflows/caller.yml"
 	p.Files[callerRel] = caller
@@ -1245,8 +1365,12 @@ func c14WorkflowCase(c *Case) {
 	}
 	classify := func(f c14Finding, missed bool) string {
 		cls := c14ClassifyWorkflow(f, missed, siteIface[f.Line], typed)
-		if sh, ok := lineShape[f.Line]; ok && f.What == c14UndefOutput {
-			cls += ":shape-" + sh
+		if f.What == c14UndefOutput {
+			if oc, ok := lineOrder[f.Line]; ok && oc != "after-caller" {
+				cls += ":dependant-" + oc
+			} else if sh, ok := lineShape[f.Line]; ok {
+				cls += ":shape-" + sh
+			}
 		}
 		return cls
 	}
